@@ -1,8 +1,8 @@
 (* Lemmas about the header-collection API model (Model/HeadersApi.v): case-insensitivity, refinement to a
    reference map keyed by the lower-cased name, arrival-order combination, name validity, wire round trip,
    RFC 2047 value round trip. *)
-From Coq Require Import Permutation.
-From Httoop Require Import Model.Headers Model.HeadersApi Proofs.SplitP Proofs.HeadersP Proofs.Base64.
+From Coq Require Import Permutation PeanoNat.
+From Httoop Require Import Model.Headers Model.HeadersApi Proofs.SplitP Proofs.HeadersP Proofs.Base64 Proofs.Utf8Enc.
 Local Open Scope N_scope.
 
 (* ================= octet-level facts (256-case computations, re-checked when a table changes) ================= *)
@@ -918,4 +918,203 @@ Proof.
   - rewrite (hparse_items it its Fw). rewrite <- Ei. f_equal.
     rewrite (commit_all_flat (sort_items h) []); [reflexivity | | exact Ns | reflexivity].
     eapply Forall_impl; [|exact Fs]. intros kv [_ [B C]]. split; assumption.
+Qed.
+
+Lemma hcompose_hblock h : hlines h <> [] -> hcompose h = hblock h ++ CRLF ++ CRLF.
+Proof.
+  unfold hcompose, hblock. generalize (hlines h). intros ls Hne. rewrite app_assoc. f_equal.
+  induction ls as [|l ls IH]; [congruence|]. destruct ls as [|l2 ls]; [cbn; rewrite app_nil_r; reflexivity|].
+  change (concat_bytes (map (fun l => l ++ CRLF) (l :: l2 :: ls)))
+    with ((l ++ CRLF) ++ concat_bytes (map (fun l => l ++ CRLF) (l2 :: ls))).
+  rewrite IH by discriminate. change (join_with CRLF (l :: l2 :: ls)) with (l ++ CRLF ++ join_with CRLF (l2 :: ls)).
+  rewrite <- !app_assoc. reflexivity.
+Qed.
+
+(* lookups in a permutation of a collection with distinct names *)
+Lemma hget_in k v h : NoDup (map fst h) -> In (k, v) h -> hget k h = Some v.
+Proof.
+  induction h as [|[k' v'] h IH]; intros N I; [contradiction|]. inversion N as [|? ? Nk N']; subst.
+  cbn [hget]. destruct I as [E|I].
+  - injection E as -> ->. rewrite bytes_eqb_refl. reflexivity.
+  - destruct (bytes_eqb k k') eqn:E; [|apply IH; assumption]. apply bytes_eqb_eq in E. subst k'.
+    exfalso. apply Nk. apply (in_map fst) in I. exact I.
+Qed.
+Lemma hget_some_in k v h : hget k h = Some v -> In (k, v) h.
+Proof.
+  induction h as [|[k' v'] h IH]; cbn [hget]; [discriminate|]. destruct (bytes_eqb k k') eqn:E.
+  - intros H. injection H as ->. apply bytes_eqb_eq in E. subst. left. reflexivity.
+  - intros H. right. apply IH, H.
+Qed.
+Lemma hget_perm k a b : NoDup (map fst a) -> Permutation a b -> hget k a = hget k b.
+Proof.
+  intros N P. assert (Nb : NoDup (map fst b)) by (eapply Permutation_NoDup; [apply Permutation_map, P | exact N]).
+  destruct (hget k a) as [v|] eqn:A.
+  - symmetry. apply hget_in; [exact Nb|]. eapply Permutation_in; [exact P|]. apply hget_some_in, A.
+  - destruct (hget k b) as [w|] eqn:B; [|reflexivity]. apply hget_some_in in B.
+    apply (Permutation_in _ (Permutation_sym P)) in B. apply (hget_in _ _ _ N) in B. congruence.
+Qed.
+
+Corollary compose_parse_equal_collection h : wf_hdrs h = true ->
+  exists h', hparse [] (hblock h) = Some h' /\ Permutation h h' /\ forall k, hget k h' = hget k h.
+Proof.
+  intros W. exists (sort_items h). split; [apply compose_parse_roundtrip, W|]. split; [apply sort_items_perm|].
+  intros k. symmetry. apply hget_perm; [|apply sort_items_perm].
+  unfold wf_hdrs in W. destruct h; [discriminate|]. apply andb_true_iff in W as [_ W]. apply uniqb_NoDup, W.
+Qed.
+
+(* ================= RFC 2047: text values read back ================= *)
+Lemma cut_none_no_first a pat l : forallb (fun c => negb (beq c a)) l = true -> cut (a :: pat) l = None.
+Proof.
+  induction l as [|c l IH]; [reflexivity|]. cbn [forallb cut prefixb]. rewrite andb_true_iff, negb_true_iff.
+  intros [E H]. rewrite beq_sym, E. cbn [andb]. rewrite (IH H). reflexivity.
+Qed.
+
+Lemma contains_prefix pat l : pat <> [] -> prefixb pat l = true -> contains pat l = true.
+Proof.
+  intros Hp H. unfold contains. destruct l as [|c l]; [destruct pat; [congruence | discriminate]|].
+  cbn [cut]. rewrite H. reflexivity.
+Qed.
+
+(* a prefix in which every "=" is followed by something other than "=" hides nothing from the "==?" scan *)
+Fixpoint safe_pre (p : bytes) : bool :=
+  match p with
+  | [] => true
+  | a :: r => (negb (beq a EQ) || match r with b :: _ => negb (beq b EQ) | [] => false end) && safe_pre r
+  end.
+
+Lemma has_eeq_safe_pre v p r : safe_pre p = true -> has_eeq v (p ++ r) = has_eeq v r.
+Proof.
+  induction p as [|a p IH]; [reflexivity|]. cbn [safe_pre]. rewrite andb_true_iff. intros [H1 H2].
+  cbn [app has_eeq]. rewrite (IH H2). 
+  assert (E : (beq a EQ && prefixb [EQ; QM] (p ++ r)) = false).
+  { destruct (beq a EQ); [|reflexivity]. cbn [negb orb andb] in *. destruct p as [|b p]; [discriminate|].
+    cbn [app prefixb]. apply negb_true_iff in H1. rewrite beq_sym, H1. reflexivity. }
+  rewrite E. reflexivity.
+Qed.
+
+Lemma has_eeq_tail b : forallb (fun c => negb (beq c QM)) b = true -> has_eeq Repaired (b ++ [QM; EQ]) = false.
+Proof.
+  induction b as [|c b IH]; [reflexivity|]. cbn [forallb]. rewrite andb_true_iff. intros [Hc Hb].
+  cbn [app has_eeq]. rewrite (IH Hb), orb_false_r.
+  destruct (beq c EQ); [|reflexivity]. cbn [andb].
+  destruct b as [|b1 [|b2 b]]; cbn [app prefixb skipn].
+  - reflexivity.
+  - destruct (beq EQ b1); reflexivity.
+  - cbn [forallb] in Hb. apply andb_true_iff in Hb as [_ Hb]. apply andb_true_iff in Hb as [Hb _].
+    apply negb_true_iff in Hb. rewrite (beq_sym QM b2), Hb. rewrite !andb_false_r. reflexivity.
+Qed.
+
+Lemma ew_frame_ok : prefixb [EQ; QM] EW_PREFIX = true /\ safe_pre EW_PREFIX = true /\ EW_SUFFIX = [QM; EQ] /\
+  forallb (fun c => negb (beq c DQ)) (EW_PREFIX ++ EW_SUFFIX) = true.
+Proof. vm_compute. repeat split; reflexivity. Qed.
+
+Lemma b64ch_plain c : is_b64ch c = true -> negb (beq c DQ) = true /\ negb (beq c QM) = true.
+Proof.
+  intros H. split; revert c H; apply byte_impl; vm_compute; reflexivity.
+Qed.
+
+Lemma b64enc_b64ch x : forallb is_b64ch (b64enc x) = true.
+Proof. exact (b64enc_out x). Qed.
+
+Lemma forallb_app {A} (p : A -> bool) a b : forallb p (a ++ b) = forallb p a && forallb p b.
+Proof. induction a as [|x a IH]; [reflexivity|]. cbn [app forallb]. rewrite IH, andb_assoc. reflexivity. Qed.
+
+Lemma looks_encoded_word b : forallb is_b64ch b = true -> looks_encoded Repaired (EW_PREFIX ++ b ++ EW_SUFFIX) = true.
+Proof.
+  intros Hb. destruct ew_frame_ok as [F1 [F2 [F3 F4]]]. unfold looks_encoded.
+  rewrite contains_prefix by (try discriminate; apply prefixb_app_r, F1).
+  assert (D : contains [DQ; EQ; QM] (EW_PREFIX ++ b ++ EW_SUFFIX) = false).
+  { unfold contains. rewrite cut_none_no_first; [reflexivity|]. rewrite forallb_app in F4. apply andb_true_iff in F4 as [P S].
+    rewrite !forallb_app, P, S, andb_true_r. cbn [andb]. rewrite forallb_forall in *. intros c Hc. apply b64ch_plain, Hb, Hc. }
+  rewrite D, (has_eeq_safe_pre _ _ _ F2), F3, has_eeq_tail; [reflexivity|].
+  rewrite forallb_forall in *. intros c Hc. apply b64ch_plain, Hb, Hc.
+Qed.
+
+Lemma ew_single_word b : forallb is_b64ch b = true -> ew_single (EW_PREFIX ++ b ++ EW_SUFFIX) = Some b.
+Proof.
+  intros Hb. unfold ew_single. rewrite prefixb_app. 
+  assert (L : Nat.leb (length EW_PREFIX + length EW_SUFFIX) (length (EW_PREFIX ++ b ++ EW_SUFFIX)) = true).
+  { apply Nat.leb_le. rewrite !app_length. lia. }
+  rewrite L. cbn [andb]. rewrite skipn_app_exact.
+  replace (length (b ++ EW_SUFFIX) - length EW_SUFFIX)%nat with (length b) by (rewrite app_length; lia).
+  rewrite skipn_app_exact, bytes_eqb_refl. cbn [andb].
+  rewrite firstn_app, Nat.sub_diag, firstn_all. cbn [firstn]. rewrite app_nil_r, Hb. reflexivity.
+Qed.
+
+Lemma pad4_b64enc x : pad4 (b64enc x) = b64enc x.
+Proof. unfold pad4. rewrite b64enc_length, Nat.mul_comm, Nat.mod_mul by discriminate. reflexivity. Qed.
+
+Section ValueRoundTrip.
+Variable dechdr : bytes -> option bytes.
+
+(* text outside Latin-1 travels as one base64 word and reads back (after the D15 repair) *)
+Theorem value_roundtrip_unicode t u : is_latin1 t = false -> utf8_enc t = Some u ->
+  exists raw, encode_rfc2047 t = Some raw /\ decode_rfc2047 Repaired dechdr raw = Some u.
+Proof.
+  intros L U. unfold encode_rfc2047. rewrite L, U. eexists. split; [reflexivity|].
+  unfold decode_rfc2047. rewrite looks_encoded_word, ew_single_word by apply b64enc_b64ch.
+  unfold ew_decode. rewrite pad4_b64enc, a2b_b64enc, (Utf8Enc.utf8_valid_enc t u U). reflexivity.
+Qed.
+
+(* Latin-1 text travels raw and reads back unless it looks like an encoded word itself (finding D16) *)
+Theorem value_roundtrip_latin1 v t : is_latin1 t = true -> looks_encoded v (latin1_enc t) = false ->
+  encode_rfc2047 t = Some (latin1_enc t) /\ decode_rfc2047 v dechdr (latin1_enc t) = utf8_enc t.
+Proof.
+  intros L E. unfold encode_rfc2047, decode_rfc2047. rewrite L, E. split; [reflexivity|].
+  symmetry. apply Utf8Enc.latin1_utf8, L.
+Qed.
+
+(* pinned tree (D15): a word whose base64 ends in "==" is not decoded *)
+Theorem value_roundtrip_asfound_refuted :
+  exists t u raw, is_latin1 t = false /\ utf8_enc t = Some u /\ encode_rfc2047 t = Some raw /\
+    decode_rfc2047 AsFound dechdr raw <> Some u.
+Proof.
+  exists [0x61; 0x20AC]. eexists. eexists. split; [reflexivity|]. split; [vm_compute; reflexivity|].
+  split; [vm_compute; reflexivity|]. vm_compute. discriminate.
+Qed.
+
+(* D16: a Latin-1 text that looks like an encoded word is decoded on lookup *)
+Theorem value_roundtrip_latin1_refuted :
+  exists t, is_latin1 t = true /\ encode_rfc2047 t = Some (latin1_enc t) /\
+    decode_rfc2047 Repaired dechdr (latin1_enc t) <> utf8_enc t.
+Proof.
+  exists [0x3d; 0x3f; 0x75; 0x74; 0x66; 0x2d; 0x38; 0x3f; 0x62; 0x3f; 0x34; 0x6f; 0x4b; 0x73; 0x3f; 0x3d].
+  split; [reflexivity|]. split; [reflexivity|]. vm_compute. discriminate.
+Qed.
+End ValueRoundTrip.
+
+(* ================= statements in the form used by Props/C08.v ================= *)
+Lemma parse_case_insensitive ls h : hparse_lines h None (map lower_name_line ls) = hparse_lines h None ls.
+Proof. exact (hparse_lines_name_ci ls h None None I). Qed.
+
+Lemma run_refines vew utitle dechdr ops :
+  let impl := run Repaired vew utitle dechdr [] ops in
+  rrun vew dechdr [] ops = (abs (fst impl), snd impl).
+Proof. cbv zeta. rewrite run_grun. exact (proj1 (grun_refines vew dechdr ops [] eq_refl)). Qed.
+
+Lemma run_canonical vew utitle dechdr ops : canonicalb (fst (run Repaired vew utitle dechdr [] ops)) = true.
+Proof. rewrite run_grun. exact (proj2 (grun_refines vew dechdr ops [] eq_refl)). Qed.
+
+Lemma names_assign utitle k :
+  (exists ck, formatkey Repaired utitle k = Some ck) <-> forallb is_tchar (key_utf8 k) = true.
+Proof.
+  rewrite <- name_ok_tchar. unfold formatkey. destruct (name_ok (key_utf8 k)).
+  - split; [reflexivity | intros _; eexists; reflexivity].
+  - split; [intros [ck H]; discriminate H | discriminate].
+Qed.
+
+Lemma names_wire u v : parse_line (u ++ COLON :: v) = Some (u, lstrip v) <-> forallb is_tchar u = true.
+Proof. rewrite <- name_ok_tchar. symmetry. apply parse_line_name_ok. Qed.
+
+(* pinned tree (D32): HEADER_RE is tested after title(), so a name whose title-casing is ASCII passes.
+   The callee is str.title(); U+017F (long s) title-cases to "S" *)
+Lemma names_asfound_refuted utitle :
+  utitle [xc5; xbf; x65; x74; x2d; x63; x6f; x6f; x6b; x69; x65] = [x53; x65; x74; x2d; x43; x6f; x6f; x6b; x69; x65] ->
+  exists k ck, formatkey AsFound utitle k = Some ck /\ forallb is_tchar (key_utf8 k) = false.
+Proof.
+  intros H. exists (KB [xc5; xbf; x65; x74; x2d; x63; x6f; x6f; x6b; x69; x65]). eexists.
+  unfold formatkey, tkey. change (key_utf8 (KB [xc5; xbf; x65; x74; x2d; x63; x6f; x6f; x6b; x69; x65]))
+    with [xc5; xbf; x65; x74; x2d; x63; x6f; x6f; x6b; x69; x65].
+  change (forallb is_ascii [xc5; xbf; x65; x74; x2d; x63; x6f; x6f; x6b; x69; x65]) with false. cbv iota.
+  rewrite H. split; vm_compute; reflexivity.
 Qed.
